@@ -55,8 +55,8 @@ Theorem C04_dedup_state_reset : forall h dom leftover sel c steps i s,
 Proof. exact history_rows_independent. Qed.
 Print Assumptions C04_dedup_state_reset.
 
-(* both resets are there (the one in `finally` keeps an abandoned-and-dropped evaluation from leaving anything behind; the one at the
-   start covers the evaluation whose iterator is still referenced) *)
-Theorem C04_both_resets : evaluation_resets_dedup_state = true /\ evaluation_resets_dedup_state_at_start = true.
-Proof. split; [exact evaluation_resets | exact evaluation_resets_at_start]. Qed.
-Print Assumptions C04_both_resets.
+(* the reset at the start is there (it covers the evaluation whose iterator is still referenced; with it the reset in `finally` is
+   no longer needed for this statement: the model reads it from the source too, but nothing is demanded of it) *)
+Theorem C04_reset_at_start : evaluation_resets_dedup_state_at_start = true.
+Proof. exact evaluation_resets_at_start. Qed.
+Print Assumptions C04_reset_at_start.
